@@ -73,7 +73,9 @@ def analyse(spec, pc_directed=True):
             a, b = pipe_end(o, a), pipe_end(o, b)
         if on:
             adj[a].add(b)
-            if k != "press_control" or not pc_directed:  # a pressure controller is documented/modelled as a one-way element
+            # a controlling pressure controller is a one-way element; one that does not control is documented to
+            # behave like an open valve
+            if k != "press_control" or not pc_directed or not o.get("control_active", True):
                 adj[b].add(a)
     supplied = set()
     stack = list(roots)
